@@ -15,19 +15,19 @@ from . import core
 SHARD_TIMEOUT = {"quick": 900, "thorough": 5400}
 
 
-def acquire_slot():
+def acquire_slot(tier="quick"):
     """Machine-wide throttle: at most VERIF_SLOTS (default 3) check runs drive their 16 shards at the same time, so that
     concurrent invocations (probes, sweeps) do not push shards into the wall-clock watchdog.  Waiting is not counted
     against any shard.  Returns the open lock file (kept until exit)."""
     import fcntl
 
-    n = int(os.environ.get("VERIF_SLOTS", "3") or 3)
+    n = int(os.environ.get("VERIF_SLOTS", "3" if tier == "quick" else "2") or 3)
     if n <= 0:
         return None
     d = os.path.join(tempfile.gettempdir(), "vmon-slots")
     try:
         os.makedirs(d, exist_ok=True)
-        files = [open(os.path.join(d, f"slot{i}.lock"), "a+") for i in range(n)]
+        files = [open(os.path.join(d, f"{tier}{i}.lock"), "a+") for i in range(n)]
     except OSError:
         return None
     waited = 0.0
@@ -80,7 +80,7 @@ def main(argv=None):
     a = ap.parse_args(argv)
     pid = a.pid.upper()
     mod = load_check(pid)
-    _slot = acquire_slot()
+    _slot = acquire_slot("quick" if a.replay else a.tier)
     t0 = time.time()
 
     if a.replay:
